@@ -83,17 +83,15 @@ def mem (T : SymTable) : Arg → Option (Reg × ImmReg)
     else none
   | _ => none
 
-/-- `RegisterSet` bit of a register -/
-def bit (r : Reg) : Nat := 2 ^ r.val
-
-/-- the set `{items}` as a bit mask: every item a register name; a register listed twice counts once -/
-def regList : List Arg → Option Nat
-  | [] => some 0
-  | .ident s :: rest =>
-    match regl s, regList rest with
-    | some r, some m => some (if m / bit r % 2 = 1 then m else m + bit r)
-    | _, _ => none
-  | _ :: _ => none
+/-- the set `{items}`: start from `acc`, add every item — each must be a register name — with `RegisterSet::add`
+(`Front.addBit`: a register listed twice counts once) -/
+def regList : List Arg → RegSet → Option RegSet
+  | [], acc => some acc
+  | .ident s :: rest, acc =>
+    match regl s with
+    | some r => regList rest (addBit acc r)
+    | none => none
+  | _ :: _, _ => none
 
 /-- the value of an operand: the same type the front end's getters produce (`Front.Val`), read as
 `imm`/`off` = integer, `reg`, `sys`, `ident` = option name, `immReg` = register-or-integer, `regSet`,
@@ -106,7 +104,7 @@ def denote (T : SymTable) (k : Kind) (a : Arg) : Option OperandValue :=
   | .register => match a with | .ident s => (regl s).map .reg | _ => none
   | .systemReg => match a with | .ident s => (sysl s).map .sys | _ => none
   | .identifier => match a with | .ident s => some (.ident s) | _ => none
-  | .regSet => match a with | .seq items => (regList items.toList).map fun m => .regSet (Fin.ofNat 65536 m) | _ => none
+  | .regSet => match a with | .seq items => (regList items.toList 0).map .regSet | _ => none
   | .immediate => (value T a).map .imm
   | .offset => (value T a).map .off
   | .immReg =>
